@@ -342,7 +342,7 @@ static void run_case(long j)
 	int l = i % NLIST, p = (i / NLIST) % 4;
 	int ng, rg, n;
 	n_glob = n_changed = n_exec_total = 0;
-	nv_guard(300, "c15-hang", "pattern=/%s/ list=\"%s\"", pats[p], list_txt[l]);
+	nv_guard(800, "c15-hang", "pattern=/%s/ list=\"%s\"", pats[p], list_txt[l]);
 	for (n = 1; n <= maxlines; n++) {
 		long cnt = 1, k;
 		int q;
